@@ -23,8 +23,11 @@ T2 == [id |-> "app-a", ver |-> "9.9.0.0", fp |-> Some("fp2"), cohort |-> [id |->
        uc |-> None, extra |-> [k0 |-> "v0", k1 |-> "v1", k2 |-> "v2", k3 |-> "v3", k4 |-> "v4", k5 |-> "v5", k6 |-> "v6"]]
 T3 == [id |-> "app-b", ver |-> "0.0.0.1", fp |-> None, cohort |-> [id |-> None, hint |-> None, name |-> None],
        uc |-> Some(0), extra |-> <<>>]
-Templates == [t1 |-> T1, t2 |-> T2, t3 |-> T3]
-TNames == {"t1", "t2", "t3"}
+\* T4's id differs from T1/T2's only in letter case: a different app
+T4 == [id |-> "APP-A", ver |-> "3.0.0.0", fp |-> None, cohort |-> [id |-> None, hint |-> None, name |-> Some("up")],
+       uc |-> Some(34), extra |-> <<>>]
+Templates == [t1 |-> T1, t2 |-> T2, t3 |-> T3, t4 |-> T4]
+TNames == {"t1", "t2", "t3", "t4"}
 
 \* events: Event::success(UpdateDownloadStarted) ; an installation error with versions and a download time
 E1 == [t |-> 13, r |-> 1, e |-> None, prev |-> None, next |-> None, dl |-> None]
